@@ -842,13 +842,19 @@ class TypedTree(Tree):
         *,
         mapper: DeserializeMapperType | None = None,
         file_meta: dict = None,
+        auto_uncompress: bool = True,
     ) -> TypedTree:
         """Create a new :class:`TypedTree` instance from a JSON file stream.
 
         See also Tree's :meth:`~nutree.tree.Tree.save()` and
         :meth:`~nutree.tree.Tree.load()` methods.
         """
-        return super().load(target, mapper=mapper, file_meta=file_meta)
+        return super().load(
+            target,
+            mapper=mapper,
+            file_meta=file_meta,
+            auto_uncompress=auto_uncompress,
+        )
 
     # @classmethod
     # def build_random_tree(cls, structure_def: dict) -> TypedTree:
